@@ -26,3 +26,21 @@ func join(ss []string) string {
 func init() {
 	NotApplicable["C11"] = "Every clause quantifies over calendar arithmetic on runtime dates (AddDate, Weekday, month lengths, sort.Search over generated periods). No clause has a shape-level reading that a rule could name without also firing on behaviour-preserving rewrites of the date arithmetic; enumerating the (finite) domain would be running the code, which is a different technique family."
 }
+
+func init() {
+	claim(&Property{
+		ID: "C06",
+		Decides: []string{
+			"(A-order) every `range` over a map, and every loop over a slice filled from one without a total sort, reachable from balance, print, check, transcode, infer, format, portfolio weights/returns and the 11 importers has a body whose effects do not depend on the iteration order (exact commutative accumulation, set insertion, element-local writes, running min/max, insert-if-absent of fresh defaults, appends to a bag that is sorted before use); float sums, last-wins overwrites, first-wins selections, early exits with element-derived results and I/O inside such a loop are violations;",
+			"(A-sort) every sort that receives unordered data uses a comparator that is a lexicographic chain and reads an identity key of the element type or every field the journal printer prints for it; comparators passed as parameters are resolved through up to 3 caller levels and each alternative is judged separately;",
+			"(A-stage) per Journal.Process call, stage by stage: once a stage appends to a per-day slice in map order, every later callback that receives its elements must be order-free until a stage sorts the slice;",
+			"(A-arrival) the per-file batches of directives reach the journal builder sequentially from a collection sorted by file path, not from per-file goroutines.",
+		},
+		NotDecided: []string{
+			"which of several concurrent errors is reported on stderr (exit status is 1 either way);",
+			"dependence on the wall clock through the default --to;",
+			"byte equality itself (no execution); the classification is per loop body, so an order dependence that needs two cooperating loops in different functions with no shared slice, field or map between them is not seen.",
+		},
+		Rules: []Rule{RuleAOrder, RuleAArrival},
+	})
+}
